@@ -34,6 +34,9 @@ def gen_case(rng):
         "files": {"/".join(k): v.decode() for k, v in files.items()},
         "lazy": {"/".join(k): {"/".join(r): v.decode() for r, v in s.items()} for k, s in lazy.items()},
         "explicit_dirs": explicit_dirs, "sqlite": rng.random() < 0.4, "existence_index": rng.random() < 0.3,
+        # SQLite-backed only: the handle is committed, closed and opened again before / in the middle of the queries, so
+        # entries come from the database rather than from the objects the process itself inserted
+        "reopen": rng.choice([None, "before", "middle", "middle"]),
     }
 
 
@@ -49,14 +52,25 @@ def build_indexes(case, root):
 
     odb = stores.make_odb(os.path.join(root, "odb"), local=True)
 
-    def new(name):
-        idx = DataIndex.open(os.path.join(root, name + ".db")) if case["sqlite"] else DataIndex()
+    def attach(idx):
         if case.get("existence_index"):
             # the storage carries the optional existence index (as remotes do); it has never been refreshed
             idx.storage_map.add_cache(ObjectStorage((), odb, index=DataIndex()))
         else:
             idx.storage_map.add_cache(ObjectStorage((), odb))
         return idx
+
+    def new(name):
+        return attach(DataIndex.open(os.path.join(root, name + ".db")) if case["sqlite"] else DataIndex())
+
+    def reopen(idx, name, storage=True):
+        """commit, close and open the SQLite-backed index again (a fresh handle: nothing in the identity cache)"""
+        idx.commit()
+        idx.close()
+        fresh = DataIndex.open(os.path.join(root, name + ".db"))
+        return attach(fresh) if storage else fresh
+
+    build_indexes.reopen = reopen
 
     L, E = new("lazy"), new("expanded")
     files = {split(k): v.encode() for k, v in case["files"].items()}
@@ -164,8 +178,14 @@ def check(ctx, case):
     ctx.case(caseq, nontrivial=any(q["q"] in ("get", "ls", "info") and tuple(q["key"]) in below for q in queries))
     ctx.count("backend:%s" % ("sqlite" if case["sqlite"] else "memory"))
     impl_l, impl_e = [], []
+    reopen = build_indexes.reopen
+    when = case.get("reopen") if case["sqlite"] else None
+    ctx.count("reopen:%s" % when)
+    mid = rng.randrange(1, len(queries)) if when == "middle" else (0 if when == "before" else None)
     try:
-        for q in queries:
+        for qi, q in enumerate(queries):
+            if mid is not None and qi == mid:
+                L, E = reopen(L, "lazy"), reopen(E, "expanded")
             ctx.count("query:" + q["q"])
             a = run_query(L, q)
             b = run_query(E, q)
@@ -180,6 +200,20 @@ def check(ctx, case):
         want = sorted([list(k), v] for k, v in flat.items())
         ctx.oracle(k1 == "ok" and after1 == after2 == want, caseq, {"why": "loading is not idempotent or does not yield the listed files",
                                                                     "after_first": after1 if after1 != want else "ok", "after_second": after2 if after2 != want else "ok"})
+        if case["sqlite"]:
+            # what was loaded is persisted, with its flag: after commit / close / reopen (no storage attached, so nothing
+            # can be loaded again) the index holds the same keys with the same kinds, hashes and loaded flags
+            def snap(idx):
+                return sorted([list(k), proj(idx._trie.get(k)), bool(idx._trie.get(k).loaded)] for k in idx)
+
+            k4, before_close = safe_call(lambda: snap(L))
+            L = reopen(L, "lazy", storage=False)
+            k5, after_open = safe_call(lambda: snap(L))
+            ctx.oracle(k4 == "ok" and k5 == "ok" and before_close == after_open, caseq,
+                       {"why": "the loaded index read back after commit/close/reopen differs (keys, kinds, hashes or loaded flags)",
+                        "differs": [x for x in (before_close if k4 == "ok" else []) if x not in (after_open if k5 == "ok" else [])][:4]})
+            unloaded = [x for x in (after_open if k5 == "ok" else []) if x[1][0] and x[1][1] and not x[2]]
+            ctx.oracle(not unloaded, caseq, {"why": "a directory object loaded before the close is marked unloaded after the reopen", "dirs": unloaded[:3]})
         # hash-level diff against the expanded index shows nothing
         L2, E2, *_ = build_indexes(case, ctx.mkdtemp())
         k3, d = safe_call(lambda: sorted((c.typ, list(c.key)) for c in diff(L2, E2, hash_only=True)))
